@@ -145,9 +145,13 @@ func isCanonDec(s string) bool {
 type Prop struct {
 	v       V
 	w, e, c bool
+	acc     *Getter // inherited accessor: this getter plus a setter that logs [7; id; value]
 }
 
 func (p Prop) Coq() string {
+	if p.acc != nil {
+		return fmt.Sprintf("(mkP %s false true true)", p.acc.Coq())
+	}
 	return fmt.Sprintf("(mkP %s %s %s %s)", p.v.Coq(), Cbool(p.w), Cbool(p.e), Cbool(p.c))
 }
 
@@ -186,10 +190,20 @@ func (d Desc) Coq() string {
 	return fmt.Sprintf("(mkD %s %s %s %s)", v, ob(d.w), ob(d.e), ob(d.c))
 }
 
+// a counting getter (no setter): logs its id, performs a side effect on another object of the same call
+// (fx 0 none, 1 append n to argument array j, 2 set the length of argument array j to n, 3 append n to the
+// receiver, 4 set the receiver's length to n), returns p
+type Getter struct{ id, p, fx, j, n int }
+
+func (g Getter) JS() string  { return fmt.Sprintf("mkg(%d,%d,%d,%d,%d)", g.id, g.p, g.fx, g.j, g.n) }
+func (g Getter) Coq() string { return fmt.Sprintf("(VGet %d %d %d %d %d)", g.id, g.p, g.fx, g.j, g.n) }
+
 type Arg struct {
-	kind byte // 'v' value, 'a' array literal, 'c' callback, 't' marker object
+	kind byte // 'v' value, 'a' array literal, 'c' callback, 't' marker object, 'r' the receiver itself
 	v    V
 	a    []*V
+	g    map[int]Getter // 'a': elements that are counting getters
+	j    int            // 'a': position among the array arguments of the call (AS[j])
 }
 
 func arrLit(a []*V) string {
@@ -226,9 +240,11 @@ func (a Arg) JS() string {
 	case 'v':
 		return a.v.JS()
 	case 'a':
-		return arrLit(a.a)
+		return fmt.Sprintf("AS[%d]", a.j)
 	case 'c':
 		return "cb"
+	case 'r':
+		return "R"
 	}
 	return "T"
 }
@@ -237,9 +253,21 @@ func (a Arg) Coq() string {
 	case 'v':
 		return "(AV " + a.v.Coq() + ")"
 	case 'a':
-		return "(AA " + slotsCoq(a.a) + ")"
+		el := make([]string, len(a.a))
+		for i, e := range a.a {
+			if gt, ok := a.g[i]; ok {
+				el[i] = "(Some " + gt.Coq() + ")"
+			} else if e == nil {
+				el[i] = "None"
+			} else {
+				el[i] = "(Some " + e.Coq() + ")"
+			}
+		}
+		return "(AA " + Clist(el) + ")"
 	case 'c':
 		return "ACb"
+	case 'r':
+		return "AR"
 	}
 	return "AT"
 }
@@ -268,7 +296,7 @@ func (c CbStep) JS() string {
 	case 'D':
 		m = "function(i){delete R[i]}"
 	case 'G':
-		m = fmt.Sprintf("function(i){Object.defineProperty(R,i,{get:mkg(%d,%d),enumerable:true,configurable:true})}", c.gid, c.gp)
+		m = fmt.Sprintf("function(i){Object.defineProperty(R,i,{get:mkg(%d,%d,0,0,0),enumerable:true,configurable:true})}", c.gid, c.gp)
 	}
 	return fmt.Sprintf("{m:%s,t:%s,r:%s}", m, Cbool(c.throw), c.ret.JS())
 }
@@ -332,9 +360,21 @@ func (o Op) JS() string { // an expression, guarded against 2^32-step loops by a
 		return "step(function(){return Object.preventExtensions(R)})"
 	}
 	as := make([]string, len(o.args))
-	for i, a := range o.args {
-		as[i] = ", " + a.JS()
+	var lits []string
+	setup := ""
+	for i := range o.args {
+		if o.args[i].kind == 'a' {
+			o.args[i].j = len(lits)
+			lits = append(lits, arrLit(o.args[i].a))
+			for k := 0; k < len(o.args[i].a); k++ {
+				if gt, ok := o.args[i].g[k]; ok {
+					setup += fmt.Sprintf("Object.defineProperty(AS[%d],\"%d\",{get:%s,enumerable:true,configurable:true}),", o.args[i].j, k, gt.JS())
+				}
+			}
+		}
+		as[i] = ", " + o.args[i].JS()
 	}
+	setup = "AS=[" + strings.Join(lits, ",") + "]," + setup
 	cs := make([]string, len(o.cbs))
 	for i, c := range o.cbs {
 		cs[i] = c.JS()
@@ -347,7 +387,7 @@ func (o Op) JS() string { // an expression, guarded against 2^32-step loops by a
 	if o.m == 15 || o.m == 16 {
 		ci = 2
 	}
-	return fmt.Sprintf("%s(S=[%s],K=0,CI=%d,step(function(){return AP.%s.call(R%s)}))", g, strings.Join(cs, ","), ci, methods[o.m], strings.Join(as, ""))
+	return fmt.Sprintf("%s(%sS=[%s],K=0,CI=%d,step(function(){return AP.%s.call(R%s)}))", g, setup, strings.Join(cs, ","), ci, methods[o.m], strings.Join(as, ""))
 }
 
 func (o Op) Coq() string {
@@ -386,7 +426,7 @@ type Recv struct {
 	proto  map[int64]Prop
 	onAP   bool // inherited properties live on Array.prototype (else Object.prototype)
 	lenGet bool // array-like whose length is a getter that logs every read (returns *length)
-	getters map[int][2]int // index -> (id, payload): the element is a counting getter without setter
+	getters map[int]Getter // index -> the element is a counting getter without setter
 }
 
 func (r Recv) protoKeys() []int64 {
@@ -406,6 +446,10 @@ func (r Recv) JS() string {
 	}
 	for _, k := range r.protoKeys() {
 		p := r.proto[k]
+		if p.acc != nil {
+			fmt.Fprintf(&b, "Object.defineProperty(%s,\"%d\",{get:%s,set:mks(%d),enumerable:true,configurable:true});", where, k, p.acc.JS(), p.acc.id)
+			continue
+		}
 		fmt.Fprintf(&b, "Object.defineProperty(%s,\"%d\",{value:%s,writable:%s,enumerable:true,configurable:true});", where, k, p.v.JS(), Cbool(p.w))
 	}
 	if r.arr {
@@ -427,7 +471,7 @@ func (r Recv) JS() string {
 	}
 	for i := 0; i < len(r.elems)+2; i++ {
 		if gp, ok := r.getters[i]; ok {
-			fmt.Fprintf(&b, "Object.defineProperty(R,\"%d\",{get:mkg(%d,%d),enumerable:true,configurable:true});", i, gp[0], gp[1])
+			fmt.Fprintf(&b, "Object.defineProperty(R,\"%d\",{get:%s,enumerable:true,configurable:true});", i, gp.JS())
 		}
 	}
 	return b.String()
@@ -442,7 +486,7 @@ func (r Recv) Coq() string {
 	}
 	for i, e := range r.elems {
 		if gp, ok := r.getters[i]; ok {
-			own = append(own, fmt.Sprintf("(KI %d, mkP (VGet %d %d) false true true)", i, gp[0], gp[1]))
+			own = append(own, fmt.Sprintf("(KI %d, mkP %s false true true)", i, gp.Coq()))
 		} else if e != nil {
 			own = append(own, fmt.Sprintf("(KI %d, mkP %s true true true)", i, e.Coq()))
 		}
@@ -457,7 +501,12 @@ func (r Recv) Coq() string {
 // ---------- the script prelude (string-only helpers: inherited index properties must not disturb it) ----------
 
 const prelude = `var G=this, T={}, AP=Array.prototype, LOG="", K=0, S=[], SKIP="SKIP\n", OUT="", LG=false, NLV, CI=1;
-function mkg(id,p){ var g=function(){LOG+="8,i"+id+";";return p}; g.gid=id; g.gp=p; return g; }
+var AS=[];
+function mkg(id,p,fx,j,n){ var g=function(){ LOG+="8,i"+id+";";
+  if(fx===1){var A=AS[j];A[A.length]=n}else if(fx===2){AS[j].length=n}else if(fx===3){R[R.length]=n}else if(fx===4){R.length=n}
+  return p };
+ g.tok="G"+id+"_"+p+"_"+fx+"_"+j+"_"+n; return g; }
+function mks(id){ return function(v){ LOG+="7,i"+id+","+enc(v)+";" } }
 var HOP=Object.prototype.hasOwnProperty;
 function enc(v){
  if(v===undefined)return "u"; if(v===null)return "n"; if(v===true)return "t"; if(v===false)return "f";
@@ -476,7 +525,7 @@ function dump(o){
  var n=Object.getOwnPropertyNames(o), s=Object.isExtensible(o)?"E":"N";
  for(var i=0;i<n.length;i++){ var d=Object.getOwnPropertyDescriptor(o,n[i]); var h="";
   for(var j=0;j<n[i].length;j++){h+=n[i].charCodeAt(j)+"."}
-  var vs; if(HOP.call(d,"value")){vs=enc(d.value)+":"+(d.writable?1:0)}else if(LG&&n[i]==="length"){vs=enc(NLV)+":1"}else if(d.get&&HOP.call(d.get,"gid")){vs="G"+d.get.gid+"_"+d.get.gp+":0"}else{vs="ACC:0"}
+  var vs; if(HOP.call(d,"value")){vs=enc(d.value)+":"+(d.writable?1:0)}else if(LG&&n[i]==="length"){vs=enc(NLV)+":1"}else if(d.get&&HOP.call(d.get,"tok")){vs=d.get.tok+":0"}else{vs="ACC:0"}
   s+="|"+h+":"+vs+(d.enumerable?1:0)+(d.configurable?1:0); }
  return s;
 }
@@ -535,11 +584,11 @@ func decVal(tok string) (string, bool) { // Coq val term
 	case 's':
 		return "(VStr " + decUnits(tok[1:]) + ")", true
 	case 'G':
-		var id, gp int
-		if _, err := fmt.Sscanf(tok, "G%d_%d", &id, &gp); err != nil {
+		var gt Getter
+		if _, err := fmt.Sscanf(tok, "G%d_%d_%d_%d_%d", &gt.id, &gt.p, &gt.fx, &gt.j, &gt.n); err != nil {
 			return "", false
 		}
-		return fmt.Sprintf("(VGet %d %d)", id, gp), true
+		return gt.Coq(), true
 	case 'R':
 		return "(VBool true)", true // "is the receiver"
 	case 'T', 'W', 'A', 'o':
